@@ -3,3 +3,4 @@ import Ucfg.Props.C17
 import Ucfg.Props.C01
 import Ucfg.Props.C16
 import Ucfg.Props.C12
+import Ucfg.Props.C03
